@@ -90,7 +90,20 @@ def m_asarray(I, e, args, kws):
     if "dtype" in kws and x.fresh and x.fresh != "FRESH":
         # asarray(x, dtype=float) copies only when the dtype differs: may still alias
         out.fresh = x.fresh
+    _dtype_cast(I, e, out, x, kws.get("dtype") or (args[1] if len(args) > 1 else None))
     return out
+
+
+def _dtype_cast(I, e, out, x, dt):
+    """x is cast to a dtype that is derived from ANOTHER value (np.result_type(a, b), y.dtype): possible truncation"""
+    if dt is None:
+        return
+    f = dt.flat()
+    src = (f.data | f.shp) - {o for o in (x.flat().data | x.flat().shp)}
+    if src and not dt.tag("exttype") and not (dt.known):
+        out.tags["dtype_from"] = frozenset(src)
+        out.shp = out.shp | f.data | f.shp
+        I.emit("dtype_cast", e, value=x, dtype_src=frozenset(src))
 
 
 @model("numpy.array")
@@ -246,6 +259,9 @@ def m_linspace(I, e, args, kws):
         u = None
     out.unit = u
     out.shape = Shape([as_dim(n) if n is not None else None])
+    dt = kws.get("dtype")
+    if dt is not None and not (dt.known and dt.const is None):
+        _dtype_cast(I, e, out, Val(data=a.flat().data | b.flat().data), dt)
     rs = kws.get("retstep")
     if rs is not None and rs.known and rs.const:
         step = mk(args + list(kws.values()), unit=u, shape=S())
@@ -265,6 +281,14 @@ def m_broadcast_to(I, e, args, kws):
     out.tags.pop("isnum", None)
     if out.shape is not None:
         out.tags["ndim"] = len(out.shape.axes)
+        if x.shape is not None and not x.shape.ell:
+            # the source must broadcast to the target: same axis role (or 1) on every aligned axis
+            sa, ta = list(x.shape.axes)[::-1], list(out.shape.axes)[::-1]
+            for i, d in enumerate(sa):
+                if i < len(ta) and d not in ((), None) and ta[i] not in ((), None) and d != ta[i]:
+                    I.type_error(e, "SHAPE", f"np.broadcast_to lays axis {'⊗'.join(d)} of {x.shape} along axis "
+                                             f"{'⊗'.join(ta[i])} of {out.shape}", shapes=(x.shape, out.shape))
+                    break
     if x.known:
         out.fresh = "FRESH"
     out.tags["readonly_view"] = True
@@ -284,6 +308,46 @@ def m_astype(I, e, args, kws):
     x = args[0]
     out = x.copy(term=mk_term("astype", x.term), fresh="FRESH")
     out.items = None
+    dt = args[1] if len(args) > 1 else kws.get("dtype")
+    _dtype_cast(I, e, out, x, dt)
+    if dt is not None and (dt.tag("builtin") == "int" or dt.tag("exttype") in ("numpy.int64", "numpy.int32", "numpy.intp") or (dt.known and dt.const in ("int", "int64", "i8"))) and x.tag("sum_dim") is None and not x.tag("indices") and x.tag("kind") == "ndarray" \
+            and not x.tag("boolarr"):
+        out.tags["rounded"] = True             # truncation of a real-valued array: sums are not preserved
+    return out
+
+
+@model("numpy.result_type", "numpy.promote_types", "numpy.common_type")
+def m_result_type(I, e, args, kws):
+    out = mk(args)
+    out.shp |= out.data
+    out.data = E
+    out.tags["dtype_of"] = True
+    return out
+
+
+@model("numpy.full")
+def m_full(I, e, args, kws):
+    shp = arg(args, kws, 0, "shape")
+    fill = arg(args, kws, 1, "fill_value")
+    out = mk([fill] if fill is not None else [], fresh="FRESH", tags={"kind": "ndarray"})
+    if shp is not None:
+        out.shp |= shp.flat().data | shp.flat().shp
+        out.shape = shape_from_arg(shp)
+    if fill is not None:
+        out.unit, out.frame, out.sign = fill.unit, fill.frame, fill.sign
+        if fill.tag("extremum") is not None:
+            out.tags["filled_with_extremum"] = fill.tag("extremum")
+            out.tags["extremum"] = fill.tag("extremum")
+        if fill.tag("xsample"):
+            out.tags["xsample"] = True
+    return out
+
+
+@model("numpy.gradient")
+def m_gradient(I, e, args, kws):
+    x = args[0]
+    out = mk(args, fresh="FRESH", unit=x.unit, shape=x.shape, tags={"kind": "ndarray", "gradient_of": x})
+    I.emit("np_gradient", e, arg=x)
     return out
 
 
@@ -372,6 +436,27 @@ def m_reshape(I, e, args, kws):
     return out
 
 
+@model("numpy.linalg.svd", "scipy.linalg.svd", "numpy.linalg.eigh", "numpy.linalg.eig", "numpy.linalg.qr", "scipy.linalg.qr",
+       "scipy.linalg.eigh")
+def m_factorisation(I, e, args, kws):
+    """orthogonal factors of a matrix: a row/column SLICE of one of them spans a proper subspace (rank truncation)"""
+    name = M.norm_text(e.func).split(".")[-1]
+    n = {"svd": 3, "eigh": 2, "eig": 2, "qr": 2}[name]
+    cu = kws.get("compute_uv")
+    if name == "svd" and cu is not None and cu.known and cu.const is False:
+        return mk(args, fresh="FRESH", unit=args[0].unit, sign="NONNEG", tags={"kind": "ndarray"})
+    items = []
+    for i in range(n):
+        it = mk(args, fresh="FRESH", tags={"kind": "ndarray", "basis_factor": True})
+        if (name == "svd" and i == 1) or (name in ("eigh", "eig") and i == 0):
+            it.tags.pop("basis_factor")
+            it.unit = args[0].unit if name == "svd" else None
+            if name == "svd":
+                it.sign = "NONNEG"
+        items.append(it)
+    return mk(args, items=items, tags={"kind": "tuple"})
+
+
 @model("numpy.transpose")
 def m_transpose(I, e, args, kws):
     x = args[0]
@@ -421,15 +506,20 @@ def m_transc(I, e, args, kws):
     if name in ("floor", "ceil"):
         u = args[0].unit
     out = _elementwise(I, e, args, unit=u)
+    if name in ("floor", "ceil"):
+        out.tags["rounded"] = True
     if name == "exp":
         out.sign = "POS"
     return out
 
 
-@model("numpy.round")
+@model("numpy.round", "numpy.rint", "numpy.trunc", "numpy.fix")
 def m_round(I, e, args, kws):
     x = args[0]
-    return _elementwise(I, e, [x], unit=x.unit, sign=x.sign, frame=x.frame)
+    out = _elementwise(I, e, [x], unit=x.unit, sign=x.sign, frame=x.frame)
+    out.tags["rounded"] = True
+    out.tags.pop("sum_dim", None)
+    return out
 
 
 @model("numpy.isfinite", "numpy.isnan", "numpy.isinf", "numpy.isneginf", "numpy.isposinf", "numpy.logical_not")
@@ -565,6 +655,8 @@ def _reduce(I, e, args, kws, unit_of=lambda x: x.unit, sign_of=lambda x: x.sign,
     out.tags["reduced_axis"] = ax
     out.tags["reduced_from"] = src.shape
     out.tags["keepdims"] = bool(keep_)
+    if src.tag("floating"):
+        out.tags["floating"] = True
     _xsample(I, e, out, src.shape, ax)
     return out
 
@@ -879,6 +971,14 @@ def m_repeat(I, e, args, kws):
     out.tags["repeat_kind"] = name
     reps = args[1] if len(args) > 1 else kws.get("repeats", kws.get("reps"))
     rd = as_dim(reps) if reps is not None else None
+    if rd is None and reps is not None and reps.tag("dim_syms"):
+        out.tags["stack_kind"] = "element-major" if name == "repeat" else "sample-major"
+        out.tags["rep_syms"] = reps.tag("dim_syms")
+    if reps is not None and reps.tag("sum_dim") is not None and name == "repeat" and "axis" not in kws and (
+            x.shape is None or x.shape.rank == 1):
+        out.shape = Shape([reps.tag("sum_dim")])     # one entry per counted item: Σ counts entries
+    elif reps is not None and reps.tag("rounded") and name == "repeat":
+        out.tags["rows_rounded"] = True
     if x.shape is not None and x.shape.rank == 1 and rd is not None and x.shape.axes[0] is not None \
             and "axis" not in kws:
         out.shape = Shape([dim_mul(rd, x.shape.axes[0])])
@@ -928,7 +1028,7 @@ def m_finfo(I, e, args, kws):
 @model("numpy.linalg.solve")
 def m_solve(I, e, args, kws):
     A, b = args[0], args[1]
-    out = mk(args, fresh="FRESH", tags={"kind": "ndarray"})
+    out = mk(args, fresh="FRESH", tags={"kind": "ndarray", "floating": True})
     out.unit = umul(b.unit, A.unit, -1)
     sa, sb = A.shape, b.shape
     if sa is not None and sb is not None and not sa.ell and not sb.ell and len(sa.axes) == 2:
@@ -1110,6 +1210,7 @@ def rng_method(I, e, base, attr, args, kws):
         out.unit = ONE
         if attr == "choice":
             out.tags["indices"] = True
+            out.tags["drawn_indices"] = True
             out.tags["kind"] = "ndarray"
         if attr in ("random", "dirichlet", "uniform"):
             out.sign = "NONNEG"
@@ -1127,6 +1228,9 @@ def rng_method(I, e, base, attr, args, kws):
         out.unit = ONE
         out.sign = "NONNEG"
         out.tags["multinomial_counts"] = base.tag("n_trials")
+        nt = base.tag("n_trials")
+        if nt is not None and as_dim(nt) is not None:
+            out.tags["sum_dim"] = as_dim(nt)        # every row of a multinomial draw sums to n_trials
     return out
 
 
@@ -1241,6 +1345,9 @@ def object_method(I, e, base, attr, args, kws):
 def m_normalize(I, e, args, kws):
     x = args[0]
     out = mk(args + list(kws.values()), fresh="FRESH", unit=ONE, shape=x.shape, tags={"kind": "ndarray"})
+    cp_ = kws.get("copy")
+    if cp_ is not None and cp_.known and cp_.const is False:
+        I.emit("inplace", e, target=x, value=out, how="method:normalize(copy=False)", tnode=e.args[0] if e.args else e)
     nrm = kws.get("norm")
     out.tags["normalized"] = nrm.const if (nrm is not None and nrm.known) else "l2"
     if out.tags["normalized"] == "l1" and x.sign in ("NONNEG", "POS"):
